@@ -2230,3 +2230,14 @@ M("c16-message-type-shift", "C16", "thirdparty/github.com/apache/thrift/lib/go/t
   "((byte(typeId) << COMPACT_TYPE_SHIFT_AMOUNT) & COMPACT_TYPE_MASK)", "((byte(typeId) >> COMPACT_TYPE_SHIFT_AMOUNT) & COMPACT_TYPE_MASK)", expect="O6 compact-headers")
 M("c16-message-version-or", "C16", "thirdparty/github.com/apache/thrift/lib/go/thrift/compact_protocol.go",
   "(COMPACT_VERSION & COMPACT_VERSION_MASK) | ((byte(typeId)", "(COMPACT_VERSION | COMPACT_VERSION_MASK) | ((byte(typeId)", expect="O6 compact-headers")
+M("c15-close-pushes-buffer", "C15", "m3/thriftudp/transport.go",
+  "	if closed := p.closed.Swap(true); !closed {\n		return p.conn.Close()", "	if closed := p.closed.Swap(true); !closed {\n		if p.writeBuf.Len() > 0 {\n			_, _ = p.conn.Write(p.writeBuf.Bytes())\n			p.writeBuf.Reset()\n		}\n		return p.conn.Close()", expect="O3 socket-writer")
+M("c17-reporter-close-unregisters", "C17", "prometheus/reporter.go",
+  "func (r *reporter) Flush() {}", "func (r *reporter) Flush() {}\n\n// Close unregisters the collectors.\nfunc (r *reporter) Close() error {\n	r.Lock()\n	defer r.Unlock()\n	for _, c := range r.counters {\n		r.registerer.Unregister(c)\n	}\n	return nil\n}", expect="O9 series-stay-registered")
+M("c14-flush-marker-in-goroutine", "C14", "m3/reporter.go",
+  "	r.reportInternalMetrics()\n	r.metCh <- sizedMetric{}\n}", "	r.reportInternalMetrics()\n	select {\n	case r.metCh <- sizedMetric{}:\n	default:\n		go func() {\n			select {\n			case r.metCh <- sizedMetric{}:\n			case <-r.donech:\n			}\n		}()\n	}\n}", expect="O3 goroutines")
+M("c05-root-tags-after-registry", "C05", "scope.go",
+  "	s.tags = s.copyAndSanitizeMap(opts.Tags)\n", "", expect="O1 root-identity-first",
+  more=[("scope.go", "	s.registry = newScopeRegistryWithShardCount(s, opts.registryShardCount, opts.OmitCardinalityMetrics, opts.CardinalityMetricsTags)\n", "	s.registry = newScopeRegistryWithShardCount(s, opts.registryShardCount, opts.OmitCardinalityMetrics, opts.CardinalityMetricsTags)\n	s.tags = s.copyAndSanitizeMap(opts.Tags)\n")])
+M("c12-buckets-share-template", "C12", "m3/reporter.go",
+  "	for i, pair := range tally.BucketPairs(buckets) {\n		var (\n			counter = r.allocateCounter(name, nil)\n			hbucket = cachedHistogramBucket{", "	counter := r.allocateCounter(name, nil)\n	for i, pair := range tally.BucketPairs(buckets) {\n		var (\n			hbucket = cachedHistogramBucket{", expect="O4b bucket-own-template")
